@@ -136,6 +136,7 @@ def order(
     # way that is simpler to handle
     all_tasks = False
     n_removed_leaves = 0
+    removed_leaves: list[Key] = []
     requires_data_task = defaultdict(set)
 
     while not all_tasks:
@@ -157,6 +158,7 @@ def order(
                 else:
                     result[leaf] = prio
                 n_removed_leaves += 1
+                removed_leaves.append(leaf)
                 leaf_nodes.remove(leaf)
                 for dep in dependencies[leaf]:
                     dependents[dep].remove(leaf)
@@ -192,6 +194,20 @@ def order(
     roots_connected, max_dependents = _connecting_to_roots(dependencies, dependents)
     leafs_connected, _ = _connecting_to_roots(dependents, dependencies)
     i = 0
+
+    # Data nodes that were only required by removed non-task leaf nodes are
+    # not reachable from the remaining graph. They have no dependencies, so
+    # they can simply go first.
+    orphaned_data: set[Key] = set()
+    for leaf in removed_leaves:
+        orphaned_data |= requires_data_task.pop(leaf, set())
+    if orphaned_data:
+        for required in requires_data_task.values():
+            orphaned_data -= required
+        for key in sorted(orphaned_data, key=str):
+            result[key] = Order(i, -1) if return_stats else i
+            if key not in external_keys:
+                i += 1
 
     runnable_hull = set()
     reachable_hull = set()
